@@ -277,7 +277,7 @@ GenLikeFam(ix, sd) ==
 \* Shapes the expression simplifier has rewrite rules for, over random sub-expressions that are REUSED inside the
 \* shape (A = A, A AND NOT A, A OR (A AND B), X >= c AND X <= c, NOT (..), IN-list algebra, CASE folding, LIKE,
 \* arithmetic identities, casts compared with literals, constant folding).
-SimpForms == 118
+SimpForms == 122
 SimpTotal == SimpForms * 12
 GenSimp(TBL, ix, sd) ==
   LET Sch == SchOf(TBL)
@@ -307,6 +307,8 @@ GenSimp(TBL, ix, sd) ==
       ncol == IF TBL = "A" THEN Col(1) ELSE Col(PickSeq(<<1, 2>>, Mix(sd, 3)))
       wcast == CastE(wk, Chance(30, Mix(sd, 10)), ncol)
       wlit(j) == LitK(I(PickSeq(IF TBL = "A" THEN <<0 - 2, 0 - 1, 0, 1, 2, 3, 100>> ELSE <<0 - 129, 0 - 128, 0 - 127, 0 - 1, 0, 1, 126, 127, 128, 300>>, Mix(sd, 80 + j))), wk)
+      KC == Col(PickCol(Sch, k, Mix(sd, 3)))
+      pc(j) == PickSeq(<<"<", "<=", ">", ">=", "=", ">", "<">>, Mix(sd, 90 + j))
       bk(e1) == [k |-> "b", e |-> e1]
       ik(e1) == [k |-> k, e |-> e1]
       AE(f, a, b) == ArithE(k, f, a, b) IN
@@ -428,6 +430,11 @@ GenSimp(TBL, ix, sd) ==
     [] t = 116 -> ik(CastE(k, neg, L(1)))
     [] t = 117 -> bk(Bin("and", Bin("or", Pb, Qb), Bin("or", Pb, Rb)))
     [] t = 118 -> bk(Bin(PickSeq(<<"and", "or">>, Mix(sd, 5)), Bin(cmp, X, Y), Un("not", Bin(cmp, X, Y))))
+    \* conjunctions of comparisons of one COLUMN with literals (simplify_predicates keeps the most restrictive bound)
+    [] t = 119 -> bk(Bin("and", Bin(pc(1), KC, L(1)), Bin(pc(2), KC, L(2))))
+    [] t = 120 -> bk(Bin("and", Bin("and", Bin(pc(1), KC, L(1)), Bin(pc(2), KC, L(2))), Bin(pc(3), KC, L(3))))
+    [] t = 121 -> bk(Bin("and", Bin("and", Bin(pc(1), L(1), KC), Bin(pc(2), KC, L(2))), Pb))
+    [] t = 122 -> bk(Bin("and", Bin("and", Bin("=", KC, L(1)), Bin(pc(2), KC, L(2))), Bin(pc(3), Col(PickCol(Sch, k, Mix(sd, 95))), L(3))))
 
 Total(fam, tbl) == CASE fam = "inlist" -> InListTotal(tbl) [] fam = "case" -> CaseTotal(tbl)
                      [] fam = "guard" -> GuardTotal [] fam = "like" -> LikeTotal [] fam = "simp" -> SimpTotal [] OTHER -> M
